@@ -25,7 +25,8 @@
    Deviations the code knowingly makes are ordinary behaviours here, not violations:
      * a wrapped edge (WithAsyncRetry: Fetch, Participate, Propose, ParSigEx.Broadcast, Broadcaster.Broadcast) returns nil
        at once, the real call runs later and may be REPEATED after a temporary failure: ExSend may follow one PBcC any
-       number of times (ExFail = an attempt that failed);
+       number of times (ExFail = an attempt that failed), BNSub (what reaches the beacon node) may follow one BcC any
+       number of times (BNFail = a submission the beacon node refused with a retryable error);
      * Participate without Propose (PartC has no guard), Propose without Participate;
      * duties that expire: a Store* call returns nil or an error and nothing follows (no guard demands progress).
 
@@ -172,6 +173,13 @@ BcC(id, n, d, set) ==
   /\ G("OneRoot", \A e \in set : \A b \in S(d).bcast : (b.v = e.v /\ b.k = e.k) => b.r = e.r)
   /\ Upd(d, [S(d) EXCEPT !.bcast = @ \cup {[n |-> n, v |-> e.v, k |-> e.k, r |-> e.r, u |-> e.u, ok |-> e.ok] : e \in set}])
   /\ OpenC(id, [ev |-> "Bc", n |-> n, d |-> d, x |-> set])
+
+(* Broadcaster -> beacon node (under the retry wrapper: a failed submission is repeated): set = [r, ok] as the beacon node
+   receives it (no validator attribution) *)
+BNSub(n, d, set) ==
+  /\ G("SubmitWhatWasBroadcast", \A e \in set : \E b \in At(n, S(d).bcast) : b.r = e.r)
+  /\ G("GroupValid", \A e \in set : e.ok)
+  /\ UNCHANGED vars
 
 ---------------------------------------------------------------------------------------------------------------------
 (* Global safety (checked by TLC on WorkflowMC; they follow from the guards when |Byz| < T). *)
